@@ -30,6 +30,8 @@ class Registry:
         self.flow_contracts = {} # "file::flow" -> FlowContract
         self.flow_files = []     # [(file, version)] to be parsed by the REAL parser (native/extract.py)
         self.sidecars = []
+        self.setters = {}        # attribute name -> assumed effect of the property setter
+        self.eq_by = {}          # class name -> attribute: the class defines __eq__ as equality of that attribute (read from the real class: checked)
 
 
 REG = Registry()
@@ -158,8 +160,20 @@ def assume(text):
     REG.assumed.append(text)
 
 
+def eq_by(cls, attr, file):
+    """`==` between two instances of `cls` is `a.<attr> == b.<attr>`: the prover checks on every run that the class in `file` still
+    defines `__eq__` exactly that way (source text of the real method) before it uses the fact"""
+    REG.eq_by[cls] = (attr, file)
+
+
 def opaque(name, **kw):
     REG.opaque[name] = kw
+
+
+def setter(attr, **kw):
+    """writes to `<obj>.<attr>` go through a property setter that is NOT verified: assumed effect like an opaque callee (recv = the
+    object, arg0 = the assigned value)"""
+    REG.setters[attr] = kw
 
 
 def inline(name, file, func):
